@@ -220,6 +220,13 @@ func (a *Agent) Status() *model.Status {
 		// Match the status to the execution graph.
 		schedulerStatus = scheduler.StatusRunning
 	}
+	if schedulerStatus == scheduler.StatusSuccess && !a.graph.IsFinished() {
+		// Between two steps (and until the handlers are done) no node is
+		// running and nothing has failed, which the scheduler reports as
+		// success: the run is still in progress. Recording "finished" here
+		// would make a run that is killed later look as if it had succeeded.
+		schedulerStatus = scheduler.StatusRunning
+	}
 
 	// Create the status object to record the current status.
 	status := &model.Status{
